@@ -17,6 +17,19 @@ class StrSub(str):
     pass
 
 
+class StrSubStr(str):
+    """str subclass whose string form differs from its (harmless)
+    character buffer - a lazily decorated string."""
+
+    def __new__(cls, raw, shown):
+        self = str.__new__(cls, raw)
+        self.shown = shown
+        return self
+
+    def __str__(self):
+        return self.shown
+
+
 class Html:
     """Object offering __html__ (markup, inserted unescaped)."""
 
